@@ -102,6 +102,7 @@ pub fn repr(m: &'static Model) -> BoxedStrategy<Repr> {
         1 => (any::<u16>(), pre).prop_map(|(split, pre)| Repr::Prepended { split, pre }),
         1 => flank(m, 70).prop_map(|junk| Repr::Refilled { junk }),
         1 => (0..64u8).prop_map(|head| Repr::FromBitSlice { head }),
+        1 => (pre_flank(m), any::<bool>()).prop_map(|(pre, cleared)| Repr::InsertedIntoEmpty { pre, cleared }),
         1 => (any::<u16>(), flank(m, 70)).prop_map(|(split, junk)| Repr::TruncExtend { split, junk }),
     ]
     .boxed()
@@ -130,6 +131,7 @@ pub fn owned_repr(m: &'static Model) -> BoxedStrategy<Repr> {
         1 => (any::<u16>(), pre).prop_map(|(split, pre)| Repr::Prepended { split, pre }),
         1 => flank(m, 70).prop_map(|junk| Repr::Refilled { junk }),
         1 => (0..64u8).prop_map(|head| Repr::FromBitSlice { head }),
+        1 => (pre_flank(m), any::<bool>()).prop_map(|(pre, cleared)| Repr::InsertedIntoEmpty { pre, cleared }),
         1 => (any::<u16>(), flank(m, 70)).prop_map(|(split, junk)| Repr::TruncExtend { split, junk }),
     ]
     .boxed()
@@ -192,10 +194,23 @@ pub fn any_repr(m: &'static Model) -> BoxedStrategy<Repr> {
 
 /// the fixed list of long lengths every length-dependent property visits (one case per length):
 /// around the powers of two where bulk / block / table fast paths typically switch on
-pub fn long_lens(thorough: bool) -> Vec<usize> {
+pub fn long_lens(thorough: bool, seed: u64) -> Vec<usize> {
     let mut v = vec![1024usize, 1025, 2049, 4096, 4097, 4098, 8193, 16384, 16385, 16386];
     if thorough {
         v.extend([1023, 2047, 2048, 4095, 8191, 8192, 16383, 20000, 32767, 32769, 65535, 65536, 65537, 70001, 131073]);
+    }
+    // a few lengths away from the powers of two, drawn from the run's seed through proptest
+    use proptest::strategy::ValueTree;
+    let mut r = proptest::test_runner::TestRunner::new(proptest::test_runner::Config {
+        rng_seed: proptest::test_runner::RngSeed::Fixed(seed ^ 0x10e6),
+        failure_persistence: None,
+        ..proptest::test_runner::Config::default()
+    });
+    let extra = if thorough { 10 } else { 4 };
+    for i in 0..extra {
+        let hi = if i % 2 == 0 { 3000usize } else { 12000 };
+        let s = 201..hi;
+        v.push(s.new_tree(&mut r).expect("strategy").current());
     }
     v
 }
